@@ -63,6 +63,39 @@ theorem above_snd {b : Ballot} {x y : Cand} (h : Above b x y) : y ∈ ballotCand
     · exact Or.inr hy
     · exact Or.inr (ih h)
 
+/-- `Above` in terms of places: x stands at place i, y at place j, and i < j -/
+theorem above_iff_index (b : Ballot) (x y : Cand) :
+    Above b x y ↔ ∃ (i j : Nat), i < j ∧ ∃ (it it' : RankItem),
+      b[i]? = some it ∧ b[j]? = some it' ∧ x ∈ it.cands ∧ y ∈ it'.cands := by
+  induction b with
+  | nil => simp [Above]
+  | cons it rest ih =>
+    simp only [Above, ih]
+    constructor
+    · rintro (⟨hx, hy⟩ | ⟨i, j, hij, it1, it2, h1, h2, hx, hy⟩)
+      · simp only [ballotCands, List.mem_flatMap] at hy
+        obtain ⟨it', hit', hy⟩ := hy
+        obtain ⟨j, hj⟩ := List.getElem?_of_mem hit'
+        exact ⟨0, j + 1, by omega, it, it', by simp, by simpa using hj, hx, hy⟩
+      · exact ⟨i + 1, j + 1, by omega, it1, it2, by simpa using h1, by simpa using h2, hx, hy⟩
+    · rintro ⟨i, j, hij, it1, it2, h1, h2, hx, hy⟩
+      cases j with
+      | zero => omega
+      | succ j' =>
+        simp only [List.getElem?_cons_succ] at h2
+        cases i with
+        | zero =>
+          simp only [List.getElem?_cons_zero, Option.some.injEq] at h1
+          subst h1
+          left
+          refine ⟨hx, ?_⟩
+          simp only [ballotCands, List.mem_flatMap]
+          exact ⟨it2, List.mem_of_getElem? h2, hy⟩
+        | succ i' =>
+          simp only [List.getElem?_cons_succ] at h1
+          right
+          exact ⟨i', j', by omega, it1, it2, h1, h2, hx, hy⟩
+
 /-- on a duplicate-free ballot "above" is asymmetric (in particular irreflexive) -/
 theorem above_asymm {b : Ballot} (hb : (ballotCands b).Nodup) {x y : Cand} (h : Above b x y) : ¬ Above b y x := by
   induction b with
